@@ -4,7 +4,9 @@
 use serde_json::{json, Value};
 use std::panic;
 
+mod c02;
 mod c03;
+mod c04;
 mod c08;
 mod c10;
 mod c11;
@@ -25,7 +27,10 @@ pub struct Outcome {
 fn rerun(w: &Value) -> Option<Outcome> {
     match w["driver"].as_str()? {
         "c19_span" => Some(c19::run_span(w["input"]["text"].as_str()?, w["input"]["start"].as_u64()? as usize, w["input"]["end"].as_u64()? as usize)),
+        "c02_lr1" => Some(c02::run(w["input"]["grammar"].as_str()?)),
+        "c04_graph" => Some(c04::run(w["input"]["grammar"].as_str()?)),
         "c12_header" => Some(c12::run_header(w["input"]["text"].as_str()?)),
+        "c12_lex" => Some(c12::run_lex(w["input"]["text"].as_str()?)),
         "c20_u8" => Some(c20::run_u8(w["input"]["kind"].as_str()?, w["input"]["n"].as_u64()? as usize)),
         "c03_expect" => Some(c03::run(w["input"]["body"].as_str()?, w["input"]["expect"].as_u64().map(|x| x as usize), w["input"]["expectrr"].as_u64().map(|x| x as usize))),
         "c10_api" => Some(c10::run(w["input"]["kind"].as_str()?, w["input"]["grammar"].as_str()?)),
@@ -44,9 +49,13 @@ fn rerun(w: &Value) -> Option<Outcome> {
 fn search(unit: &str, tag: &str, tier: &str) -> Option<Value> {
     match unit {
         "c19_queries" | "c19_cols" => c19::search(tag, tier),
+        "c02_weakly" => c02::search(tag, tier),
+        "c04_pager" => c04::search(tag, tier).or_else(|| c02::search(tag, tier)),
         "c12_header" => c12::search(tag, tier),
+        "c12_lex" => c12::search_lex(tier),
+        "c11_decl" if tag.starts_with("C12") => c12::search_lex(tier),
         "c08_reduce" => c08::search(tag, tier),
-        "c11_decl" | "c11_lex" => c11::search(tag, tier),
+        "c11_decl" | "c11_lex" | "c09_lexer" => c11::search(tag, tier),
         "c10_grammar" => if tag.starts_with("C15") { c15::search(tag, tier) } else { c10::search(tag, tier) },
         "c03_expect" => c03::search(tag, tier),
         "c17_firsts" | "c17_follows" | "c17_haspath" => c17::search(unit, tag, tier),
